@@ -1,6 +1,7 @@
 import TextxVerif.Proofs.MultStore
 import TextxVerif.Proofs.MultAccepts
 import TextxVerif.Proofs.TxMult
+import TextxVerif.Proofs.MultRef
 /-!
 # C02 — assignments never lose, duplicate or reorder matched values
 
@@ -382,3 +383,49 @@ example : (match compile { rules := [bridgeWitness] } with | .ok _ => true | .er
   decide +kernel
 
 end Tx
+
+
+/-! ## Reference-valued attributes (`a+=[X]`, `a=[X]` below a repetition, …)
+
+`process_node` stores nothing for them; the values reach the list in `ReferenceResolver.resolve_one_step`,
+one by one, in whatever order the scope providers stop answering `Postponed` (`Mult.Ref`, model of the
+per-list bookkeeping `_list_ref_positions` + `bisect` + `insert`). -/
+namespace Mult.Ref
+
+variable {V : Type}
+
+/-- **References reach the list in input order, each exactly once, whatever the order of resolution.**
+`refs` = the references one object matched for one list attribute, in input order (text positions strictly
+increasing); `sched` = the same references in the order in which they get resolved — *any* permutation
+(any history of `Postponed` answers over any number of resolution steps).  Then the attribute holds
+exactly the values of `refs`, in that order, and the bookkeeping holds their positions.  (Applied to a
+prefix of a schedule — the state after any resolution step — `refs` is what has been resolved so far.) -/
+theorem C02_ref_any_order (refs sched : List (Nat × V))
+    (hs : refs.Pairwise (fun a b => a.1 < b.1)) (hp : sched.Perm refs) :
+    (resolveAll sched).vals = refs.map (·.2) ∧ (resolveAll sched).positions = refs.map (·.1) := by
+  rw [resolveAll_pairs, pairs_eq refs sched hs hp]
+  exact ⟨rfl, rfl⟩
+
+/-- **… in particular for every history of `Postponed` answers.**  `refs` = (delay, position, value) in
+input order: the scope provider answers `Postponed` in the first `delay` resolution steps.  The list ends
+up as the values in input order. -/
+theorem C02_ref_history (n : Nat) (refs : List (Nat × Nat × V))
+    (hs : refs.Pairwise (fun a b => a.2.1 < b.2.1)) (hn : ∀ r ∈ refs, r.1 ≤ n) :
+    (resolveAll (scheduleOf n refs)).vals = refs.map (·.2.2) := by
+  have h := C02_ref_any_order (refs.map (·.2)) (scheduleOf n refs)
+    (by simpa [List.pairwise_map] using hs) (scheduleOf_perm n refs hn)
+  rw [h.1, List.map_map]
+  rfl
+
+/-- The seeded change C02-5 (fast path `append`, slow path without recording the position) is wrong: with
+`a b c` at positions 0 1 2, `c` resolved in the first step and `a`, `b` postponed, the list ends up
+`[b, a, c]`; the code gives `[a, b, c]`. -/
+theorem C02_ref_stale_false :
+    (resolveAllStale (scheduleOf 1 [(1, 0, 10), (1, 1, 11), (0, 2, 12)])).vals = [11, 10, 12]
+    ∧ (resolveAll (scheduleOf 1 [(1, 0, 10), (1, 1, 11), (0, 2, 12)])).vals = [10, 11, 12] := by decide
+
+/-- non-vacuity: a history with three steps -/
+example : (resolveAll (scheduleOf 2 [(2, 0, "a"), (0, 3, "b"), (1, 5, "c"), (0, 9, "d")])).vals = ["a", "b", "c", "d"] := by
+  decide
+
+end Mult.Ref
